@@ -62,6 +62,11 @@ def run(ctx):
             continue
         for (c, i), r in zip(hist, hres):
             if i is None:
+                report.cov["evaluations"] += 1
+                report.count("history_op", "register")
+                if r[0] == "err" and "registry-contract" in str(r[1]):
+                    viol.append({"kind": "history", "mode": mode, "op": "register",
+                                 "detail": f"a registration does not return the index of the function just registered, or disturbs earlier entries: {r[1]}"})
                 continue
             report.cov["evaluations"] += 1
             report.count("history_op", c["op"])
